@@ -66,7 +66,7 @@ func checkWindingRule(ctx *Ctx, r *Report, fn *ssa.Function, key string) {
 		r.undecided("W1", key, fn.Pos(), "result not scalar")
 		return
 	}
-	recv, p := fn.Params[0].Name(), fn.Params[1].Name()
+	recv, p := paramName(fn, 0), paramName(fn, 1)
 	// the side test: the polynomial compared with 0
 	var side *Term
 	for _, c := range condAtoms(t) {
@@ -184,7 +184,7 @@ func checkQuadtreeWinding(ctx *Ctx, r *Report, lowerClosed bool) {
 	}
 	ev := newEval(ctx, "(*sdf.lineInfo).winding")
 	ev.evalRoot(fn)
-	node, p := fn.Params[0].Name(), fn.Params[1].Name()
+	node, p := paramName(fn, 0), paramName(fn, 1)
 	qx := Cmp("<", Sub(A(p+".X"), A(node+".center.X")), K(0))
 	qy := Cmp("<", Sub(A(p+".Y"), A(node+".center.Y")), K(0))
 	var calls []Event
@@ -281,7 +281,7 @@ func checkLineOwnership(ctx *Ctx, r *Report) {
 	}
 	ev := newEval(ctx)
 	ev.evalRoot(fn)
-	box, l := fn.Params[0].Name(), fn.Params[1].Name()
+	box, l := paramName(fn, 0), paramName(fn, 1)
 	horiz := Cmp("==", Sub(A(l+"[1].Y"), A(l+"[0].Y")), K(0))
 	vert := Cmp("==", Sub(A(l+"[1].X"), A(l+"[0].X")), K(0))
 	onTop := Cmp("==", A(l+"[0].Y"), A(box+".Max.Y"))
